@@ -13,24 +13,29 @@
     client    sends a request (`readGood`), a correctly framed but undecodable message (`readBad`:
               `ttlv.IsErrEncoding`, including "message too big"), a message that is not a request
               (`readSkip`), any number of them and at any time (pipelining = the reader picks the next
-              one up while the owner is busy); reads a response (`wOk`) or not; half-closes
-              (`cliHalf`: the reader gets EOF — garbage / truncated bytes followed by the end of the
-              stream are the same event for the server: a non-encoding error of `Recv`) or closes
-              (`cliClose`) at ANY point. Bytes may still be readable / writable after the peer
-              closed (kernel socket buffers), so reads stay possible until the local close.
+              one up while the owner is busy); reads a response (`wOk`) or not; half-closes or
+              closes (`cliGone`: the reader gets EOF — garbage / truncated bytes followed by the end
+              of the stream are the same event for the server: a non-encoding error of `Recv`) at
+              ANY point. Bytes may still be readable / writable after the peer has gone (half-close,
+              kernel socket buffers): reads stay possible until the local close, and a write to a
+              gone peer may succeed or fail — which covers every transport.
     handler   returns a response (`hRet`: success, typed error, plain error and recovered panic are
               all "a response message is returned" for the connection — that the item is a FAILED
               item is `Kmip.C08.handler_outcome_is_an_item` over the batch model), or blocks until
               the connection context is cancelled (`hSlow` then `hRet` once `ctxDone`).
-    server    cancels the receive context (`recvCancel`, Shutdown) or the server context
-              (`srvCancel`: the connection context is a child, so this IS `ctxDone := true`).
+    server    cancels the receive context (`recvCancel`, Shutdown: the `<-ctx.Done()` case of `recv`
+              may be taken at any time — the flag itself is not stored, which only adds behaviours)
+              or the server context (`srvCancel`: the connection context is a child, so this IS
+              `ctxDone := true`).
 
   Message contents are abstracted (data independence: no control decision of conn.go/handleConn
-  depends on the content of a decodable request). Requests carry their index PARITY: at most two
-  requests are in flight between `Recv` and `Send` (one held by R, one owned by M/W), adjacent
-  indices have different parities, so any reordering, duplication or loss among the in-flight
-  requests shows as a parity mismatch at the write (`orderBad`). The number of requests on a
-  connection is therefore UNBOUNDED in this model.
+  depends on the content of a decodable request). The symmetry used: only the RELATIVE position of
+  a request among those in flight matters. At most two decodable requests are in flight between
+  `Recv` and `Send` (one held by R, one owned by M then W); `fl` counts them and each carries one
+  bit, "is not the oldest in flight". A response written for a request that is not the oldest in
+  flight (overtaking), or with nothing in flight (duplicate / response without request) raises
+  `Fault.order`; when the connection is live and idle `fl` must be 0 (nothing unanswered). The number
+  of requests on a connection is therefore UNBOUNDED in this model.
 
   `Params` keeps the two repaired defects switchable: `closesTx` (terminate closes the tx channel)
   and `errChCap` (capacity of the per-message error channel).
@@ -61,7 +66,8 @@ inductive MPc where
   | ctxCheck    -- [y:srv.beforeSend] if ctx.Err() != nil
   | sendCheck   -- send: checkAvailable
   | loadTx      -- tx := c.tx.Load(); errCh := make(chan error, cap)
-  | sendSel     -- [y:srv.send.loaded] select { tx <- msg | <-c.ctx.Done }
+  | sendSel     -- [y:srv.send.loaded] select { tx <- msg | <-c.ctx.Done }, tx = the channel
+  | sendSelNil  -- … tx = the nil channel (loaded after terminate swapped it)
   | waitErr     -- select { <-errCh | <-c.ctx.Done }
   | t1 | t2 | t3  -- terminate called from recv/send ([y:srv.terminate.afterCancel] at t3)
   | dfr         -- loop left: deferred srv.terminateHook (only if the connect hook succeeded)
@@ -73,9 +79,10 @@ inductive MPc where
 inductive RPc where
   | check       -- for !c.closed.Load()
   | recv        -- c.stream.Recv(&msg)
-  | hand        -- [y:srv.read.beforeRx] select { rx <- resp | <-c.ctx.Done }
+  | hand        -- [y:srv.read.beforeRx] select { rx <- resp | <-c.ctx.Done }, a decoded request
+  | handBad     -- … an encoding error
   | t1 | t2 | t3
-  | closeRx     -- deferred close(c.rx)
+  | closeRx     -- deferred close(c.rx); `ended` ⇔ rx is closed
   | ended
   deriving DecidableEq, Repr, Inhabited
 
@@ -90,64 +97,48 @@ inductive WPc where
   | ended
   deriving DecidableEq, Repr, Inhabited
 
-/-- the client end: `gone` = it has half-closed or closed (or its stream ended after garbage). The
-    reader then gets a non-encoding error (after whatever is still buffered); a write may still
-    succeed (half-close, socket buffer) or fail (closed): both are possible, which covers every
-    transport. -/
-inductive Cli where
-  | open | gone
+/-- what must never happen. The first two are Go run-time panics (they kill the process); the
+    others are raised by the ghost bookkeeping. A faulted state has no successor. -/
+inductive Fault where
+  | none
+  | sendOnClosed    -- send on a closed channel
+  | closeOfClosed   -- close of a closed channel
+  | order           -- a response that is not the answer to the oldest unanswered request
+  | invalidTwice    -- a second invalid-message response
+  | hookTwice       -- the terminate hook runs a second time
   deriving DecidableEq, Repr, Inhabited
 
-inductive Panic where
-  | none | sendOnClosed | closeOfClosed
-  deriving DecidableEq, Repr, Inhabited
-
-/-- a saturating counter: 0, 1, more. -/
+/-- 0, 1, 2 (number of decodable requests in flight). -/
 inductive Cnt where
-  | zero | one | many
+  | zero | one | two
   deriving DecidableEq, Repr, Inhabited
-
-def Cnt.inc : Cnt → Cnt
-  | .zero => .one
-  | _ => .many
 
 structure State where
   m : MPc
   r : RPc
   w : WPc
-  cli : Cli
-  panic : Panic
+  cliGone : Bool       -- the client has half-closed / closed / its byte stream ended
+  fault : Fault
   closed : Bool        -- c.closed
   ctxDone : Bool       -- c.ctx cancelled (by terminate, or through the server context)
-  txNil : Bool         -- c.tx holds the nil channel
-  txClosed : Bool      -- the tx channel object has been closed (only when `closesTx`)
-  rxClosed : Bool
-  netLocal : Bool      -- stream closed by the server
+  torn : Bool          -- terminate's last step done: c.tx holds nil (the old code also closed the
+                       -- channel: `txClosed`), the stream is closed by the server
   errVal : Bool        -- the current message's error channel holds a value
   errClosed : Bool     -- … is closed
   hookOk : Bool        -- the connect hook succeeded (terminate hook registered)
-  mTxNil : Bool        -- the channel value M loaded is nil
-  brk : Bool           -- M is sending the invalid-message response and leaves the loop afterwards
-  rBad : Bool          -- the message R holds failed to decode
-  wInv : Bool          -- the response W holds is the invalid-message response
-  rdP : Bool           -- ghost: parity of the number of decodable requests read
-  wrP : Bool           -- ghost: parity of the number of request responses written
-  rIdx : Bool          -- ghost: parity index of the request held by R / M / W
-  mIdx : Bool
-  wIdx : Bool
-  orderBad : Bool      -- ghost: a response was written that is not the next expected one
-  invProd : Cnt        -- ghost: invalid-message responses produced / written
-  invWr : Cnt
-  termHooks : Cnt      -- ghost: runs of the terminate hook
+  fl : Cnt             -- ghost: decodable requests read and not yet answered
+  rPos : Bool          -- ghost: the request R holds is not the oldest in flight
+  pPos : Bool          -- ghost: the request M (then W) owns is not the oldest in flight
+  invProd : Bool       -- ghost: the invalid-message response has been produced (M leaves the loop
+                       --        after sending it: `invProd` is also "break after send")
+  invWr : Bool         -- ghost: … has been written
+  termHook : Bool      -- ghost: the terminate hook has run
   deriving DecidableEq, Repr, Inhabited
 
 def init : State :=
-  { m := .hook, r := .check, w := .check, cli := .open, panic := .none, closed := false,
-    ctxDone := false, txNil := false, txClosed := false, rxClosed := false, netLocal := false,
-    errVal := false, errClosed := false, hookOk := false, mTxNil := false,
-    brk := false, rBad := false, wInv := false, rdP := false, wrP := false, rIdx := false,
-    mIdx := false, wIdx := false, orderBad := false, invProd := .zero, invWr := .zero,
-    termHooks := .zero }
+  { m := .hook, r := .check, w := .check, cliGone := false, fault := .none, closed := false,
+    ctxDone := false, torn := false, errVal := false, errClosed := false, hookOk := false,
+    fl := .zero, rPos := false, pPos := false, invProd := false, invWr := false, termHook := false }
 
 inductive Ev where
   | m | r | w                         -- internal step of M / R / W (rendezvous: the receiver's side)
@@ -169,13 +160,18 @@ def Ev.isEnv : Ev → Bool
 
 def unavailable (s : State) : Bool := s.closed || s.ctxDone
 
+/-- the tx channel object is closed (old code only). -/
+def txClosed (p : Params) (s : State) : Bool := p.closesTx && s.torn
+
+/-- rx is closed ⇔ the reader has ended (`defer close(c.rx)` is its last action). -/
+def rxClosed (s : State) : Bool := s.r == .ended
+
 /-- third step of terminate: swap tx for nil (the old code also closed it), close the stream. -/
 def term3 (p : Params) (s : State) : State :=
-  if p.closesTx && s.txClosed then { s with panic := .closeOfClosed }
-  else { s with txNil := true, txClosed := s.txClosed || p.closesTx, netLocal := true }
+  if p.closesTx && s.torn then { s with fault := .closeOfClosed } else { s with torn := true }
 
 def closeErrCh (s : State) : State :=
-  if s.errClosed then { s with panic := .closeOfClosed } else { s with errClosed := true }
+  if s.errClosed then { s with fault := .closeOfClosed } else { s with errClosed := true }
 
 def stepM (p : Params) (s : State) : List (Ev × State) :=
   match s.m with
@@ -183,84 +179,91 @@ def stepM (p : Params) (s : State) : List (Ev × State) :=
               (.hookFail, { s with hookOk := false, m := .c1 })]
   | .recvCheck => [(.m, { s with m := if unavailable s then .dfr else .recvSel })]
   | .recvSel =>
-    (if s.r = .hand then
-      (if s.rBad then
-        [(Ev.m, { s with m := .sendCheck, brk := true, invProd := s.invProd.inc,
-                         r := .check, rBad := false, rIdx := false })]
-       else
-        [(Ev.m, { s with m := .handle, mIdx := s.rIdx, r := .check, rIdx := false })])
+    (if s.r = .hand then [(Ev.m, { s with m := .handle, pPos := s.rPos, rPos := false, r := .check })]
+     else if s.r = .handBad then
+      [(Ev.m, if s.invProd then { s with fault := .invalidTwice }
+              else { s with m := .sendCheck, invProd := true, r := .check })]
      else []) ++
-    (if s.rxClosed then [(Ev.m, { s with m := .dfr })] else []) ++
+    (if rxClosed s then [(Ev.m, { s with m := .dfr })] else []) ++
     [(Ev.recvCancel, { s with m := .t1 })] ++
     (if s.ctxDone then [(Ev.m, { s with m := .t1 })] else [])
   | .handle => [(.hRet, { s with m := .ctxCheck }), (.hSlow, { s with m := .handleSlow })]
   | .handleSlow => if s.ctxDone then [(.hRet, { s with m := .ctxCheck })] else []
   | .ctxCheck => [(.m, { s with m := if s.ctxDone then .dfr else .sendCheck })]
   | .sendCheck => [(.m, { s with m := if unavailable s then .dfr else .loadTx })]
-  | .loadTx => [(.m, { s with m := .sendSel, mTxNil := s.txNil, errVal := false, errClosed := false })]
+  | .loadTx => [(.m, { s with m := if s.torn then .sendSelNil else .sendSel,
+                              errVal := false, errClosed := false })]
   | .sendSel =>
-    (if !s.mTxNil && s.txClosed then [(Ev.m, { s with panic := .sendOnClosed })] else []) ++
-    (if !s.mTxNil && !s.txClosed && s.w = .sel then
-      [(Ev.m, { s with m := .waitErr, w := .io, wIdx := s.mIdx, wInv := s.brk, mTxNil := false })]
-     else []) ++
+    (if txClosed p s then [(Ev.m, { s with fault := .sendOnClosed })] else []) ++
+    (if !txClosed p s && s.w = .sel then [(Ev.m, { s with m := .waitErr, w := .io })] else []) ++
     (if s.ctxDone then [(Ev.m, { closeErrCh s with m := .t1 })] else [])
+  | .sendSelNil => if s.ctxDone then [(.m, { closeErrCh s with m := .t1 })] else []
   | .waitErr =>
-    (if s.errVal then [(Ev.m, { s with errVal := false, m := .dfr, mIdx := false })] else []) ++
+    (if s.errVal then [(Ev.m, { s with errVal := false, m := .dfr })] else []) ++
     (if !s.errVal && s.errClosed then
-      [(Ev.m, { s with errClosed := false, mIdx := false, m := if s.brk then .dfr else .recvCheck })]
+      [(Ev.m, { s with errClosed := false, m := if s.invProd then .dfr else .recvCheck })]
      else []) ++
     (if s.ctxDone then [(Ev.m, { s with m := .t1 })] else [])
   | .t1 => [(.m, if s.closed then { s with m := .dfr } else { s with closed := true, m := .t2 })]
   | .t2 => [(.m, { s with ctxDone := true, m := .t3 })]
   | .t3 => [(.m, { term3 p s with m := .dfr })]
-  | .dfr => [(.m, { s with termHooks := if s.hookOk then s.termHooks.inc else s.termHooks, m := .c1 })]
+  | .dfr => [(.m, if !s.hookOk then { s with m := .c1 }
+                  else if s.termHook then { s with fault := .hookTwice }
+                  else { s with termHook := true, m := .c1 })]
   | .c1 => [(.m, if s.closed then { s with m := .wgDone } else { s with closed := true, m := .c2 })]
   | .c2 => [(.m, { s with ctxDone := true, m := .c3 })]
   | .c3 => [(.m, { term3 p s with m := .wgDone })]
   | .wgDone => [(.m, { s with m := .ended })]
   | .ended => []
 
+def Cnt.inc : Cnt → Cnt
+  | .zero => .one
+  | _ => .two
+
 def stepR (p : Params) (s : State) : List (Ev × State) :=
   match s.r with
   | .check => [(.r, { s with r := if s.closed then .closeRx else .recv })]
   | .recv =>
-    (if !s.netLocal then
-      [(Ev.readGood, { s with r := .hand, rBad := false, rIdx := s.rdP, rdP := !s.rdP }),
-       (Ev.readBad, { s with r := .hand, rBad := true }),
+    (if !s.torn then
+      [(Ev.readGood, if s.fl = .two then { s with fault := .order }
+                     else { s with r := .hand, rPos := s.fl != .zero, fl := s.fl.inc }),
+       (Ev.readBad, { s with r := .handBad }),
        (Ev.readSkip, { s with r := .check })]
      else []) ++
-    (if s.netLocal || s.cli != .open then [(Ev.readErr, { s with r := .t1 })] else [])
-  | .hand => if s.ctxDone then [(.r, { s with r := .closeRx, rBad := false, rIdx := false })] else []
+    (if s.torn || s.cliGone then [(Ev.readErr, { s with r := .t1 })] else [])
+  | .hand => if s.ctxDone then [(.r, { s with r := .closeRx, rPos := false })] else []
+  | .handBad => if s.ctxDone then [(.r, { s with r := .closeRx })] else []
   | .t1 => [(.r, if s.closed then { s with r := .closeRx } else { s with closed := true, r := .t2 })]
   | .t2 => [(.r, { s with ctxDone := true, r := .t3 })]
   | .t3 => [(.r, { term3 p s with r := .closeRx })]
-  | .closeRx => [(.r, if s.rxClosed then { s with panic := .closeOfClosed }
-                      else { s with rxClosed := true, r := .ended })]
+  | .closeRx => [(.r, { s with r := .ended })]
   | .ended => []
+
+/-- the bookkeeping of a successful write. -/
+def written (s : State) : State :=
+  if s.invProd then
+    (if s.invWr then { s with fault := .invalidTwice } else { s with w := .closeOk, invWr := true })
+  else if s.pPos || s.fl = .zero then { s with fault := .order }
+  else { s with w := .closeOk, pPos := false, rPos := false,
+                fl := if s.fl = .two then .one else .zero }
 
 def stepW (p : Params) (s : State) : List (Ev × State) :=
   match s.w with
   | .check => [(.w, { s with w := if s.closed then .ended else .sel })]
   | .sel =>
-    (if s.txClosed then [(Ev.w, { s with w := .ended })] else []) ++
+    (if txClosed p s then [(Ev.w, { s with w := .ended })] else []) ++
     (if s.ctxDone then [(Ev.w, { s with w := .ended })] else [])
   | .io =>
-    (if !s.netLocal then
-      [(Ev.wOk,
-        if s.wInv then { s with w := .closeOk, invWr := s.invWr.inc, wInv := false, wIdx := false }
-        else { s with w := .closeOk, orderBad := s.orderBad || (s.wIdx != s.wrP), wrP := !s.wrP,
-                      wIdx := false })]
-     else []) ++
-    (if s.netLocal || s.cli == .gone then
-      [(Ev.wFail, { s with w := .errSend, wInv := false, wIdx := false })] else [])
+    (if !s.torn then [(Ev.wOk, written s)] else []) ++
+    (if s.torn || s.cliGone then [(Ev.wFail, { s with w := .errSend, pPos := false })] else [])
   | .closeOk => [(.w, { closeErrCh s with w := .check })]
   | .errSend =>
-    if s.errClosed then [(.w, { s with panic := .sendOnClosed })]
+    if s.errClosed then [(.w, { s with fault := .sendOnClosed })]
     else if p.errChCap > 0 then
       (if s.errVal then [] else [(.w, { s with errVal := true, w := .errClose })])
     else
       -- unbuffered: a rendezvous with M waiting in `waitErr`, otherwise blocked
-      (if s.m = .waitErr then [(.w, { s with w := .errClose, m := .dfr, mIdx := false })] else [])
+      (if s.m = .waitErr then [(.w, { s with w := .errClose, m := .dfr })] else [])
   | .errClose => [(.w, { closeErrCh s with w := .t1 })]
   | .t1 => [(.w, if s.closed then { s with w := .ended } else { s with closed := true, w := .t2 })]
   | .t2 => [(.w, { s with ctxDone := true, w := .t3 })]
@@ -268,12 +271,12 @@ def stepW (p : Params) (s : State) : List (Ev × State) :=
   | .ended => []
 
 def stepEnv (s : State) : List (Ev × State) :=
-  (if s.cli = .open then [(Ev.cliGone, { s with cli := .gone })] else []) ++
-  [(Ev.srvCancel, { s with ctxDone := true })]
+  (if !s.cliGone then [(Ev.cliGone, { s with cliGone := true })] else []) ++
+  (if !s.ctxDone then [(Ev.srvCancel, { s with ctxDone := true })] else [])
 
-/-- labelled successors. A panicked process has taken the whole process down: no successor. -/
+/-- labelled successors. A faulted state has none (a panic takes the whole process down). -/
 def stepL (p : Params) (s : State) : List (Ev × State) :=
-  if s.panic != .none then [] else stepM p s ++ stepR p s ++ stepW p s ++ stepEnv s
+  if s.fault != .none then [] else stepM p s ++ stepR p s ++ stepW p s ++ stepEnv s
 
 def sys (p : Params) : Sys State := { init := init, step := fun s => (stepL p s).map (·.2) }
 
@@ -281,37 +284,45 @@ def sys (p : Params) : Sys State := { init := init, step := fun s => (stepL p s)
 
 def allEnded (s : State) : Bool := s.m == .ended && s.r == .ended && s.w == .ended
 
-def crashed (s : State) : Bool := s.panic != .none
+/-- a Go run-time panic. -/
+def crashed (s : State) : Bool := s.fault == .sendOnClosed || s.fault == .closeOfClosed
 
-/-- the peer has closed or the connection context is cancelled, a goroutine has not ended, and
+/-- the peer has gone or the connection context is cancelled, a goroutine has not ended, and
     nothing the server itself can do is enabled: the remaining goroutines are kept forever. -/
 def stuck (p : Params) (s : State) : Bool :=
-  (s.cli == .gone || s.ctxDone) && !allEnded s && !crashed s &&
+  (s.cliGone || s.ctxDone) && !allEnded s && s.fault == .none &&
     ((stepL p s).all (fun e => e.1.isEnv))
+
+/-- the one shape in which the CURRENT code does keep the goroutines of a connection whose client
+    has gone: the handler waits for the cancellation of its context while the reader, holding a
+    pipelined message it cannot deliver, is not reading and therefore never sees the end of the
+    stream. Only the handler returning by itself or the server context (Shutdown) ends it. -/
+def waitsOnPipelined (s : State) : Bool :=
+  s.m == .handleSlow && (s.r == .hand || s.r == .handBad) && !s.ctxDone
 
 /-- the connection is live and idle: the owner waits for the next request, the reader holds none. -/
 def idleLive (s : State) : Bool :=
-  s.m == .recvSel && s.r != .hand && !s.closed && !s.ctxDone
+  s.m == .recvSel && s.r != .hand && s.r != .handBad && !s.closed && !s.ctxDone
 
 /-- responses are not the in-order, one-for-one image of the decodable requests read. -/
 def misordered (s : State) : Bool :=
-  s.orderBad || (idleLive s && (s.rdP != s.wrP))
+  s.fault == .order || (idleLive s && s.fl != .zero)
 
-/-- the invalid-message response: more than one, one written that was never produced, or the
+/-- the invalid-message response: a second one, one written that was never produced, or the
     connection goes on serving after it. -/
 def invalidBad (s : State) : Bool :=
-  s.invProd == .many || s.invWr == .many || (s.invWr == .one && s.invProd == .zero) ||
-  (s.invProd != .zero && (s.m == .handle || s.m == .handleSlow || s.m == .recvSel))
+  s.fault == .invalidTwice || (s.invWr && !s.invProd) ||
+  (s.invProd && (s.m == .handle || s.m == .handleSlow || s.m == .recvSel || s.m == .recvCheck))
 
-/-- terminate hook: more than once, without a successful connect hook, or not exactly once when
-    everything has ended after a successful connect hook; or a handler after it. -/
+/-- terminate hook: twice, without a successful connect hook, not exactly once when the owner has
+    ended after a successful connect hook, or before a handler / the connect hook. -/
 def hookBad (s : State) : Bool :=
-  s.termHooks == .many || (s.termHooks != .zero && !s.hookOk) ||
-  (s.m == .ended && s.termHooks != (if s.hookOk then Cnt.one else Cnt.zero)) ||
-  (s.termHooks != .zero && (s.m == .handle || s.m == .handleSlow || s.m == .hook))
+  s.fault == .hookTwice || (s.termHook && !s.hookOk) ||
+  (s.m == .ended && s.termHook != s.hookOk) ||
+  (s.termHook && (s.m == .handle || s.m == .handleSlow || s.m == .hook || s.m == .recvSel))
 
 def bad (p : Params) (s : State) : Bool :=
-  crashed s || stuck p s || misordered s || invalidBad s || hookBad s
+  crashed s || (stuck p s && !waitsOnPipelined s) || misordered s || invalidBad s || hookBad s
 
 /-! ### coding -/
 
@@ -319,67 +330,63 @@ def MPc.toNat : MPc → Nat
   | .hook => 0 | .recvCheck => 1 | .recvSel => 2 | .handle => 3 | .handleSlow => 4 | .ctxCheck => 5
   | .sendCheck => 6 | .loadTx => 7 | .sendSel => 8 | .waitErr => 9 | .t1 => 10 | .t2 => 11
   | .t3 => 12 | .dfr => 13 | .c1 => 14 | .c2 => 15 | .c3 => 16 | .wgDone => 17 | .ended => 18
+  | .sendSelNil => 19
 def MPc.ofN : Nat → MPc
   | 0 => .hook | 1 => .recvCheck | 2 => .recvSel | 3 => .handle | 4 => .handleSlow | 5 => .ctxCheck
   | 6 => .sendCheck | 7 => .loadTx | 8 => .sendSel | 9 => .waitErr | 10 => .t1 | 11 => .t2
-  | 12 => .t3 | 13 => .dfr | 14 => .c1 | 15 => .c2 | 16 => .c3 | 17 => .wgDone | _ => .ended
+  | 12 => .t3 | 13 => .dfr | 14 => .c1 | 15 => .c2 | 16 => .c3 | 17 => .wgDone | 18 => .ended
+  | _ => .sendSelNil
 def RPc.toNat : RPc → Nat
   | .check => 0 | .recv => 1 | .hand => 2 | .t1 => 3 | .t2 => 4 | .t3 => 5 | .closeRx => 6 | .ended => 7
+  | .handBad => 8
 def RPc.ofN : Nat → RPc
-  | 0 => .check | 1 => .recv | 2 => .hand | 3 => .t1 | 4 => .t2 | 5 => .t3 | 6 => .closeRx | _ => .ended
+  | 0 => .check | 1 => .recv | 2 => .hand | 3 => .t1 | 4 => .t2 | 5 => .t3 | 6 => .closeRx | 7 => .ended
+  | _ => .handBad
 def WPc.toNat : WPc → Nat
   | .check => 0 | .sel => 1 | .io => 2 | .closeOk => 3 | .errSend => 4 | .errClose => 5 | .t1 => 6
   | .t2 => 7 | .t3 => 8 | .ended => 9
 def WPc.ofN : Nat → WPc
   | 0 => .check | 1 => .sel | 2 => .io | 3 => .closeOk | 4 => .errSend | 5 => .errClose | 6 => .t1
   | 7 => .t2 | 8 => .t3 | _ => .ended
-def Cli.toNat : Cli → Nat | .open => 0 | .gone => 1
-def Cli.ofN : Nat → Cli | 0 => .open | _ => .gone
-def Panic.toNat : Panic → Nat | .none => 0 | .sendOnClosed => 1 | .closeOfClosed => 2
-def Panic.ofN : Nat → Panic | 0 => .none | 1 => .sendOnClosed | _ => .closeOfClosed
-def Cnt.toNat : Cnt → Nat | .zero => 0 | .one => 1 | .many => 2
-def Cnt.ofN : Nat → Cnt | 0 => .zero | 1 => .one | _ => .many
-def bToNat (b : Bool) : Nat := if b then 1 else 0
-def bOfNat (n : Nat) : Bool := n != 0
+def Fault.toNat : Fault → Nat
+  | .none => 0 | .sendOnClosed => 1 | .closeOfClosed => 2 | .order => 3 | .invalidTwice => 4
+  | .hookTwice => 5
+def Fault.ofN : Nat → Fault
+  | 0 => .none | 1 => .sendOnClosed | 2 => .closeOfClosed | 3 => .order | 4 => .invalidTwice
+  | _ => .hookTwice
+def Cnt.toNat : Cnt → Nat | .zero => 0 | .one => 1 | .two => 2
+def Cnt.ofN : Nat → Cnt | 0 => .zero | 1 => .one | _ => .two
+def bToNat : Bool → Nat | true => 1 | false => 0
+def bOfNat : Nat → Bool | 0 => false | _ => true
 
 theorem MPc.ofN_toNat (x : MPc) : MPc.ofN x.toNat = x := by cases x <;> rfl
 theorem RPc.ofN_toNat (x : RPc) : RPc.ofN x.toNat = x := by cases x <;> rfl
 theorem WPc.ofN_toNat (x : WPc) : WPc.ofN x.toNat = x := by cases x <;> rfl
-theorem Cli.ofN_toNat (x : Cli) : Cli.ofN x.toNat = x := by cases x <;> rfl
-theorem Panic.ofN_toNat (x : Panic) : Panic.ofN x.toNat = x := by cases x <;> rfl
+theorem Fault.ofN_toNat (x : Fault) : Fault.ofN x.toNat = x := by cases x <;> rfl
 theorem Cnt.ofN_toNat (x : Cnt) : Cnt.ofN x.toNat = x := by cases x <;> rfl
 theorem bOfNat_bToNat (b : Bool) : bOfNat (bToNat b) = b := by cases b <;> rfl
-theorem MPc.toNat_lt (x : MPc) : x.toNat < 19 := by cases x <;> decide
-theorem RPc.toNat_lt (x : RPc) : x.toNat < 8 := by cases x <;> decide
+theorem MPc.toNat_lt (x : MPc) : x.toNat < 20 := by cases x <;> decide
+theorem RPc.toNat_lt (x : RPc) : x.toNat < 9 := by cases x <;> decide
 theorem WPc.toNat_lt (x : WPc) : x.toNat < 10 := by cases x <;> decide
-theorem Cli.toNat_lt (x : Cli) : x.toNat < 2 := by cases x <;> decide
-theorem Panic.toNat_lt (x : Panic) : x.toNat < 3 := by cases x <;> decide
+theorem Fault.toNat_lt (x : Fault) : x.toNat < 6 := by cases x <;> decide
 theorem Cnt.toNat_lt (x : Cnt) : x.toNat < 3 := by cases x <;> decide
 theorem bToNat_lt (b : Bool) : bToNat b < 2 := by cases b <;> decide
 
 /-- the digits of a state with their radices. -/
 def digits (s : State) : List (Nat × Nat) :=
-  [(s.m.toNat, 19), (s.r.toNat, 8), (s.w.toNat, 10), (s.cli.toNat, 2), (s.panic.toNat, 3),
-   (bToNat s.closed, 2), (bToNat s.ctxDone, 2), (bToNat s.txNil, 2), (bToNat s.txClosed, 2),
-   (bToNat s.rxClosed, 2), (bToNat s.netLocal, 2), (bToNat s.errVal, 2), (bToNat s.errClosed, 2),
-   (bToNat s.hookOk, 2), (bToNat s.mTxNil, 2), (bToNat s.brk, 2),
-   (bToNat s.rBad, 2), (bToNat s.wInv, 2), (bToNat s.rdP, 2), (bToNat s.wrP, 2), (bToNat s.rIdx, 2),
-   (bToNat s.mIdx, 2), (bToNat s.wIdx, 2), (bToNat s.orderBad, 2), (s.invProd.toNat, 3),
-   (s.invWr.toNat, 3), (s.termHooks.toNat, 3)]
+  [(s.m.toNat, 20), (s.r.toNat, 9), (s.w.toNat, 10), (bToNat s.cliGone, 2), (s.fault.toNat, 6),
+   (bToNat s.closed, 2), (bToNat s.ctxDone, 2), (bToNat s.torn, 2), (bToNat s.errVal, 2),
+   (bToNat s.errClosed, 2), (bToNat s.hookOk, 2), (s.fl.toNat, 3), (bToNat s.rPos, 2),
+   (bToNat s.pPos, 2), (bToNat s.invProd, 2), (bToNat s.invWr, 2), (bToNat s.termHook, 2)]
 
-def radices : List Nat :=
-  [19, 8, 10, 2, 3, 2, 2, 2, 2, 2, 2, 2, 2, 2, 2, 2, 2, 2, 2, 2, 2, 2, 2, 2, 3, 3, 3]
+def radices : List Nat := [20, 9, 10, 2, 6, 2, 2, 2, 2, 2, 2, 3, 2, 2, 2, 2, 2]
 
 def ofDigits : List Nat → State
-  | [a0, a1, a2, a3, a4, a5, a6, a7, a8, a9, a10, a11, a12, a14, a15, a16, a17, a18, a19, a20,
-     a21, a22, a23, a24, a25, a26, a27] =>
-    { m := .ofN a0, r := .ofN a1, w := .ofN a2, cli := .ofN a3, panic := .ofN a4,
-      closed := bOfNat a5, ctxDone := bOfNat a6, txNil := bOfNat a7, txClosed := bOfNat a8,
-      rxClosed := bOfNat a9, netLocal := bOfNat a10, errVal := bOfNat a11, errClosed := bOfNat a12,
-      hookOk := bOfNat a14, mTxNil := bOfNat a15, brk := bOfNat a16,
-      rBad := bOfNat a17, wInv := bOfNat a18, rdP := bOfNat a19, wrP := bOfNat a20,
-      rIdx := bOfNat a21, mIdx := bOfNat a22, wIdx := bOfNat a23, orderBad := bOfNat a24,
-      invProd := .ofN a25, invWr := .ofN a26, termHooks := .ofN a27 }
+  | [a0, a1, a2, a3, a4, a5, a6, a7, a8, a9, a10, a11, a12, a13, a14, a15, a16] =>
+    { m := .ofN a0, r := .ofN a1, w := .ofN a2, cliGone := bOfNat a3, fault := .ofN a4,
+      closed := bOfNat a5, ctxDone := bOfNat a6, torn := bOfNat a7, errVal := bOfNat a8,
+      errClosed := bOfNat a9, hookOk := bOfNat a10, fl := .ofN a11, rPos := bOfNat a12,
+      pPos := bOfNat a13, invProd := bOfNat a14, invWr := bOfNat a15, termHook := bOfNat a16 }
   | _ => init
 
 def code (s : State) : Nat := pack (digits s)
@@ -388,15 +395,14 @@ def decode (n : Nat) : State := ofDigits (unpack radices n)
 theorem digits_radices (s : State) : (digits s).map (·.2) = radices := rfl
 
 theorem digits_lt (s : State) : ∀ d ∈ digits s, d.1 < d.2 := by
-  simp [digits, MPc.toNat_lt, RPc.toNat_lt, WPc.toNat_lt, Cli.toNat_lt, Panic.toNat_lt,
-    Cnt.toNat_lt, bToNat_lt]
+  simp [digits, MPc.toNat_lt, RPc.toNat_lt, WPc.toNat_lt, Fault.toNat_lt, Cnt.toNat_lt, bToNat_lt]
 
 theorem decode_code (s : State) : decode (code s) = s := by
   unfold decode code
   rw [← digits_radices s, unpack_pack _ (digits_lt s)]
   cases s
   simp only [digits, List.map_cons, List.map_nil, ofDigits, MPc.ofN_toNat, RPc.ofN_toNat,
-    WPc.ofN_toNat, Cli.ofN_toNat, Panic.ofN_toNat, Cnt.ofN_toNat, bOfNat_bToNat]
+    WPc.ofN_toNat, Fault.ofN_toNat, Cnt.ofN_toNat, bOfNat_bToNat]
 
 def coding : Coding State := { code := code, decode := decode, decode_code := decode_code }
 
